@@ -107,6 +107,7 @@ class Ctx:
                 if a['k'] == 'ref' and borrows:
                     self.pure.discard(k)
         self._graphs = {}
+        self.blind_spots = set()
         self._roles = {}
         self.by_path = {}
         for k, b in self.B.items():
@@ -239,6 +240,11 @@ class Ctx:
         self.stats['nodes'] += g.n
         self.stats['edges'] += len(g.edges)
         self.stats['explore_s'] += time.time() - t0
+        # a call through a value the interpreter could not resolve hides whatever that callee does: every rule that
+        # reads this graph would pass vacuously on it, so the property's check fails closed instead
+        for n in set(g.notes):
+            if n and n[0] == 'indirect call':
+                self.blind_spots.add('unresolved indirect call in %s at %s: the effects of the callee are not on the state graph' % (n[1], n[2]))
         q = GQ(g)
         q.interp = I
         self._graphs[ck] = q
@@ -525,7 +531,10 @@ class Ctx:
         """Pure local fn(&str) -> io::Result<_> called by the cache-directory lookup with the key name."""
         get = self.cachedir_methods()['get']
         cands = set()
-        for callee in self.cg.local_edges.get(get, ()):
+        direct = set(self.cg.local_edges.get(get, ()))
+        for callee in sorted(direct) + sorted(self.cg.reach(get) - direct):     # (directly, or through a shared helper)
+            if cands and callee not in direct:
+                break
             b = self.B[callee]
             if callee in self.pure and b['arg_count'] == 1:
                 a = self.T[b['locals'][1]['ty']]
